@@ -297,6 +297,8 @@ class World(object):
             exec_fail_plan={int(k): v for k, v in
                             (cfg.get('exec_fail') or {}).items()},
             want_fdtable=cfg.get('want_fdtable', False))
+        if cfg.get('exec_fail_from'):
+            self.kernel.exec_fail_from = tuple(cfg['exec_fail_from'])
         self.kernel.signal_fail_plan = dict(
             (int(k), v) for k, v in (cfg.get('signal_fail') or {}).items())
         self.kernel.sender = _circus_stack
